@@ -40,6 +40,7 @@ RULE = (
     ' Round 7: fault `disconnect-hang` (the leaving task is cancelled while disconnect hangs).'
     ' Round 8: fault `connect-once` (retry on the same object after a failed connect).'
     ' Round 9: `reader_task` (another task suspended in gateway.listen() at exit).'
+    ' Round 11: `enter_task` / `exit_task` (the context is entered / left by a short-lived task of its own); `late_change` (the registry changes while a slow disconnect is under way: the file equals the registry when the context has been left).'
     ' Round 10: `traffic` (that task handles a message that changes nothing every `traffic` virtual seconds while the deadlines are checked).'
 )
 ASSUMPTIONS = [
@@ -80,6 +81,19 @@ def enumerate_cases(tier: str):
             for k, T in ((2, 901), (0, 1800), (3, 5000), (9, None)):
                 for mutate in (True, "in-place"):
                     yield {"kind": kind, "fault": "none", "file": "registry", "k": k, "T": T, "mutate": mutate, "reader_task": True, "traffic": period}
+    # the context is entered by a short-lived set-up task and/or left by a shutdown task; the registry still changes while a slow link closes
+    for kind in KINDS:
+        for fault in ("none", "body"):
+            for k, T in ((0, None), (9, None), (2, 901), (0, 1800), (3, 5000)):
+                for tasks in ({"enter_task": True}, {"exit_task": True}, {"enter_task": True, "exit_task": True}):
+                    yield {"kind": kind, "fault": fault, "file": "registry", "k": k, "T": T, "mutate": True, **tasks}
+                    if fault == "none":
+                        yield {"kind": kind, "fault": fault, "file": "registry", "k": k, "T": T, "mutate": True, "reenter": True, **tasks}
+    for kind in ("plain", "plain-nosuspend"):
+        for fault in ("none", "body", "disconnect"):
+            for k, T in ((0, None), (9, None), (2, 901)):
+                yield {"kind": kind, "fault": fault, "file": "registry", "k": k, "T": T, "mutate": True, "late_change": True}
+                yield {"kind": kind, "fault": fault, "file": "missing", "k": k, "T": T, "mutate": "in-place", "late_change": True, "reader_task": True}
     # the same gateway object lives on under a second event loop (asyncio.run called again)
     for kind in KINDS:
         for fault in ("none", "body", "cancel-body"):
@@ -141,6 +155,9 @@ def strategy(tier: str):
             "new_loop": st.sampled_from((False, False, True)),
             "reader_task": st.sampled_from((False, False, True)),
             "traffic": st.sampled_from((0, 0, 0.5, 60, 450, 899, 900, 1000)),
+            "enter_task": st.sampled_from((False, False, True)),
+            "exit_task": st.sampled_from((False, False, True)),
+            "late_change": st.sampled_from((False, False, True)),
         }
     ).filter(lambda c: not (c["kind"] == "mqtt" and c["fault"] == "connect-once")).filter(lambda c: c["kind"] == "plain" or (c["kind"] == "plain-nosuspend" and c["fault"] not in ("connect-timeout", "disconnect-hang")) or ("disconnect" not in c["fault"] and c["fault"] != "connect-timeout"))
 
@@ -180,6 +197,24 @@ def _make_exc(name: str) -> BaseException:
     return BodyError("body failed")
 
 
+class _Ctx:
+    """`async with gateway`, with the entry and/or the exit run by a short-lived task of their own (a set-up task, an AsyncExitStack
+    unwound by a shutdown task): which task enters and which one leaves is the application's business."""
+
+    def __init__(self, gateway, enter_task: bool, exit_task: bool) -> None:
+        self.gateway, self.enter_task, self.exit_task = gateway, enter_task, exit_task
+
+    async def __aenter__(self):
+        if self.enter_task:
+            return await asyncio.ensure_future(self.gateway.__aenter__())
+        return await self.gateway.__aenter__()
+
+    async def __aexit__(self, *exc):
+        if self.exit_task:
+            return await asyncio.ensure_future(self.gateway.__aexit__(*exc))
+        return await self.gateway.__aexit__(*exc)
+
+
 class PlainTransport(env.RecordingTransport):
     """Fake transport; `suspends=False` gives connect/disconnect that never yield to the event loop
     (then the saver task has not even started when a short body leaves the context)."""
@@ -192,6 +227,7 @@ class PlainTransport(env.RecordingTransport):
         self.block_reads = False
         self.traffic_period = 0
         self.traffic_count = 0
+        self.slow_disconnect = 0.0
 
     async def read(self) -> str:
         if self.traffic_period:
@@ -216,6 +252,8 @@ class PlainTransport(env.RecordingTransport):
         self.disconnected += 1
         if self.suspends:
             await asyncio.sleep(0)
+        if self.slow_disconnect:
+            await asyncio.sleep(self.slow_disconnect)  # a link that takes its time to close
         if self.fault == "disconnect-hang":
             self.hanging.set()
             await asyncio.Event().wait()  # the link is stuck: only a cancellation of the leaving task ends this
@@ -400,7 +438,7 @@ def run_case(case: dict) -> Outcome:
                 async with asyncio.timeout(30):
                     await gateway.__aenter__()
                 return fail("connect-timeout:no-error", "a hanging connect returned")
-            async with gateway:
+            async with _Ctx(gateway, bool(case.get("enter_task")), bool(case.get("exit_task"))):
                 entered = True
                 if case.get("reader_task") and kind.startswith("plain"):
                     # the usual application shape: one task iterates gateway.listen() (waiting for traffic) while this one leaves the context
@@ -464,6 +502,18 @@ def run_case(case: dict) -> Outcome:
                     # the first save may or may not have run yet: busy unless the file already holds a complete document
                     info["saver_busy_at_exit"] = state != "ok" or k < 8
                 at_exit_doc = registry_doc(gateway)
+                if case.get("late_change") and kind.startswith("plain"):
+                    # the link takes 10 s to close; 5 s into that a message handled by another task (or the application) still changes the registry
+                    transport.slow_disconnect = 10.0
+
+                    async def change_later() -> None:
+                        await asyncio.sleep(5)
+                        gateway.nodes[33] = Node(33, 17, "2.2")
+                        for node in gateway.nodes.values():
+                            node.battery_level = 77
+
+                    ignore_tasks.add(asyncio.ensure_future(change_later()))
+                    shared["late"] = True
                 if fault == "cancel-body":
                     # the application task is cancelled for real (task.cancel(), asyncio.timeout, Ctrl-C under asyncio.run)
                     me.cancel()
@@ -472,6 +522,8 @@ def run_case(case: dict) -> Outcome:
                     raise _make_exc(case.get("body_exc", "BodyError"))
         except BaseException as err:  # noqa: BLE001
             caught = err
+        if shared.get("late"):
+            at_exit_doc = registry_doc(gateway)  # the registry as it is when the context has been left
         if fault in ("cancel-body", "disconnect-hang") and isinstance(caught, asyncio.CancelledError):
             me.uncancel()
         if shared.get("consumer") is not None:
